@@ -2,18 +2,24 @@
 (* Trace validation for C02.  Event kinds: geom (a bare geometry), feat (a feature), fc (a feature collection).    *)
 (* Each carries the input model, the document the harness parsed out of the JSON bytes the library produced         *)
 (* (doc), the value the library decoded from those bytes (dec) and from the BSON bytes (decb), and same = 1 iff       *)
-(* marshalling the decoded value again gave byte-identical JSON.                                                     *)
+(* marshalling the decoded value again gave byte-identical JSON.  re / reb: the same bytes decoded into a value that  *)
+(* already held the result of earlier decodes (a decoding loop reusing one variable); routes = 1 iff json.Marshal and  *)
+(* a Geometry literal around the value give the same bytes as the value's own MarshalJSON / bson.Marshal; stable = 1   *)
+(* iff the bytes returned for the previous event are still what they were.                                            *)
 EXTENDS GeoJsonDoc, Json, IOUtils
 Trace == ndJsonDeserialize(IOEnv.TRACE)
 VARIABLES l, bad
 GeomOk(e) == /\ e.err = "" /\ e.doc = GeomDoc(e.g) /\ WellFormedGeom(e.doc)
              /\ GEq(e.dec, NormG(e.g)) /\ GEq(e.decb, NormG(e.g)) /\ e.same = 1
+             /\ GEq(e.re, NormG(e.g)) /\ GEq(e.reb, NormG(e.g)) /\ e.routes = 1 /\ e.stable = 1
 FeatOk(e) == /\ e.err = "" /\ e.doc = FeatureDoc(e.f) /\ WellFormedGeom(e.doc.v.geometry)
              /\ FEq(e.dec, NormF(e.f)) /\ FEq(e.decb, NormF(e.f)) /\ e.same = 1
+             /\ FEq(e.re, NormF(e.f)) /\ FEq(e.reb, NormF(e.f)) /\ e.routes = 1 /\ e.stable = 1
 FCEq(d, fc) == /\ Len(d.feats) = Len(fc.feats) /\ \A i \in 1..Len(fc.feats) : FEq(d.feats[i], NormF(fc.feats[i]))
                /\ d.bbox = fc.bbox /\ d.extra = fc.extra
 FCOk(e) == /\ e.err = "" /\ e.doc = FCDoc(e.fc)
            /\ FCEq(e.dec, e.fc) /\ FCEq(e.decb, e.fc) /\ e.same = 1
+           /\ FCEq(e.re, e.fc) /\ FCEq(e.reb, e.fc) /\ e.routes = 1 /\ e.stable = 1
 Ok(e) == CASE e.k = "geom" -> GeomOk(e) [] e.k = "feat" -> FeatOk(e) [] e.k = "fc" -> FCOk(e) [] OTHER -> FALSE
 Init == l = 1 /\ bad = {}
 Next == /\ l <= Len(Trace) /\ l' = l + 1
